@@ -35,6 +35,8 @@ def worker(unit, emit):
     rnd = random.Random('%s/nat/%s' % (p['seed'], name))
     corp = lib.pick(lib.corpus(name, mod), p['bases'], rnd)
     full = FULL_FORM.get(name)
+    import datetime
+    year = datetime.date.today().year      # the system date is an argument of some formats (N3)
     compact = (lambda x: full(mod, x)) if full else mod.compact
 
     def rec(x, how):
@@ -42,7 +44,7 @@ def worker(unit, emit):
         if rc['k'] != 'ret' or rc['t'] != 'str' or any(c > 127 for c in rc['v']):
             return
         r = lib.call(mod.validate, x)
-        emit.trace([{'m': name, 'c': rc['v'], 'r': {'k': r['k'], 't': r['t'], 'v': r['v']}}],
+        emit.trace([{'m': name, 'c': rc['v'], 'y': year, 'r': {'k': r['k'], 't': r['t'], 'v': r['v']}}],
                    {'m': name, 'w': x, 'how': how, 'site': r['site'], 'outcome': r['cls'] or 'accepted'})
         emit.count('national')
     lens = set()
